@@ -1,11 +1,10 @@
 (* Value.export on JavaScript arrays and objects (value.go export, the
    valueObject branch): JSON-like script data becomes nested Go slices and
    maps; an array becomes a typed slice []T when the loop over its elements
-   ends in state 1 (one kind triple seen), else []interface{}.  Transcribed
-   with its deviations: holes are skipped, the slice type is taken from the
-   LAST element while only the (kind, key kind, element kind) triples are
-   compared, so reflect's Set panics when the triples agree and the types do
-   not. *)
+   ends in state 1 (every element has the kind triple and the type of the
+   first), else []interface{}.  Transcribed with its deviation: holes are
+   skipped.  (The Set of the elements into the typed slice can no longer fail:
+   ProofsExport.finish_total.) *)
 From Coq Require Import ZArith Bool List.
 From Otto Require Import Common.Double C15.Model.
 Import ListNotations.
@@ -87,22 +86,24 @@ Definition triple_of (t : gty) : triple :=
 Definition triple_eqb (a b : triple) : bool :=
   let '(a1, a2, a3) := a in let '(b1, b2, b3) := b in (a1 =? b1) && (a2 =? b2) && (a3 =? b3).
 
-(* the loop: state 0 nothing seen, 1 one triple seen, 2 mixed *)
-Definition st : Type := (Z * triple)%type.
-Definition st0 : st := (0, (0, 0, 0)).
+(* the loop: state 0 nothing seen, 1 one type seen (same kind triple AND same type as the first
+   element), 2 mixed *)
+Definition st : Type := (Z * triple * gty)%type.
+Definition st0 : st := (0, (0, 0, 0), TNil).
 Definition step (s : st) (x : gv) : st :=
-  let '(state, cur) := s in
-  let tr := triple_of (type_of x) in
-  if state =? 0 then (1, tr)
-  else if (state =? 1) && negb (triple_eqb cur tr) then (2, cur)
+  let '(state, cur, first) := s in
+  let t := type_of x in
+  let tr := triple_of t in
+  if state =? 0 then (1, tr, t)
+  else if (state =? 1) && negb (triple_eqb cur tr && gty_eqb first t) then (2, cur, first)
   else s.
 Definition run (l : list gv) : st := fold_left step l st0.
 
 Definition last_type (l : list gv) : gty := type_of (last l XNil).
 
-(* after the loop *)
+(* after the loop; the Set of every element into the []T is reflect's assignability check *)
 Definition finish (l : list gv) : res gv :=
-  let '(state, (kind, _, _)) := run l in
+  let '(state, (kind, _, _), _) := run l in
   let t := last_type l in
   if negb (state =? 1) || (kind =? 20) || gty_eqb t TNil then Ok (XSlice TIface l)
   else if forallb (fun x => gty_eqb (type_of x) t) l      (* val.Index(i).Set(reflect.ValueOf(v)) *)
